@@ -11,8 +11,13 @@ sys.path.insert(0, os.path.dirname(os.path.abspath(__file__)))
 from implbase import main, guarded
 
 
-def extract():
-    from spsdk.dat.debug_credential import DebugCredentialCertificate as DCC
+def extract(keydir):
+    import logging
+    logging.disable(logging.CRITICAL)
+    from spsdk.crypto.keys import PublicKey
+    from spsdk.dat import dar_packet
+    from spsdk.dat.debug_credential import (DebugCredentialCertificate as DCC, DebugCredentialCertificateEcc,
+                                            DebugCredentialCertificateRsa, ProtocolVersion, RotMetaEcc)
     from spsdk.utils.database import DatabaseManager, get_db
     fams, soccs = [], []
 
@@ -41,12 +46,58 @@ def extract():
                 f = facts(db)
                 f.update({"family": dev, "revision": rev, "socc": DCC.get_socc_by_family(dev, rev), "latest": rev == latest})
                 fams.append(f)
-    return {"soccs": soccs, "families": fams, "supported": DCC.get_supported_families()}
+    # ---- what the code computes: version tables, struct formats, constants
+    src = {"versions": list(ProtocolVersion.VERSIONS)}
+    src["is_rsa"] = [bool(ProtocolVersion(v).is_rsa()) for v in ProtocolVersion.VERSIONS]
+    vr, ve = {}, {}
+    for kid, bits in (("r2048_0", 2048), ("r3072_0", 3072), ("r4096_0", 4096)):
+        try:
+            v = ProtocolVersion.from_public_key(PublicKey.load(os.path.join(keydir, kid + ".pub")))
+            vr[bits] = [v.major, v.minor]
+        except Exception:  # noqa  (size not supported by the protocol)
+            pass
+    for kid, bits in (("p256_0", 256), ("p384_0", 384), ("p521_0", 521)):
+        try:
+            v = ProtocolVersion.from_public_key(PublicKey.load(os.path.join(keydir, kid + ".pub")))
+            ve[bits] = [v.major, v.minor]
+        except Exception:  # noqa
+            pass
+    src["version_of_rsa"], src["version_of_ecc"] = vr, ve
+    src["rsa_formats"] = {}
+    for v in ProtocolVersion.VERSIONS:
+        pv = ProtocolVersion(v)
+        if pv.is_rsa():
+            src["rsa_formats"][v] = [DebugCredentialCertificateRsa.get_data_format(pv, True),
+                                     DebugCredentialCertificateRsa.get_data_format(pv, False)]
+    plain = sorted(f["family"] for f in fams if not f["ele"] and f["latest"])[0]
+    ele = sorted(f["family"] for f in fams if f["ele"] and f["cnt"] == 1 and f["latest"])[0]
+
+    def inst(family, kt, n):
+        cfg = {"family": family, "uuid": "00" * 16, "cc_socu": 0, "cc_vu": 0, "cc_beacon": 0,
+               "rot_meta": [os.path.join(keydir, f"{kt}_{i}.pub") for i in range(n)], "rot_id": 0,
+               "rotk": os.path.join(keydir, f"{kt}_0.pem"), "dck": os.path.join(keydir, f"{kt}_4.pub")}
+        dc = DCC.create_from_yaml_config(cfg)
+        dc.sign()
+        return dc
+    dc = inst(plain, "r2048", 1)
+    src["rsa_exp_len"] = [len(dc.export_rot_pub()) - 256, len(dc.export_dck_pub()) - 256]
+    src["ecc_formats"], src["ele_formats"] = [], []
+    for kt, bits in (("p256", 256), ("p384", 384), ("p521", 521)):
+        for n in (1, 2):
+            dc = inst(plain, kt, n)
+            src["ecc_formats"].append({"bits": bits, "n": n, "with_sig": dc.get_data_format(True), "without_sig": dc.get_data_format(False)})
+    for kt, bits in (("p256", 256), ("p384", 384), ("p521", 521), ("r2048", 2048), ("r4096", 4096)):
+        dc = inst(ele, kt, 4)
+        src["ele_formats"].append({"bits": bits, "n": 4, "with_sig": dc.get_data_format(True), "without_sig": dc.get_data_format(False)})
+    src["coordinate_size"] = dict(DebugCredentialCertificateEcc.COORDINATE_SIZE)
+    src["hash_sizes"] = dict(RotMetaEcc.HASH_SIZES)
+    src["dar_versions"] = {v: issubclass(c, dar_packet.DebugAuthenticateResponseECC) for v, c in dar_packet._version_mapping.items()}
+    return {"soccs": soccs, "families": fams, "supported": DCC.get_supported_families(), "source": src}
 
 
 def handler(payload):
     if payload.get("mode") == "extract":
-        return extract()
+        return extract(payload["keydir"])
     import logging
     logging.disable(logging.CRITICAL)
     from spsdk.crypto.keys import PublicKeyEcc, PublicKeyRsa
@@ -147,9 +198,16 @@ def handler(payload):
                             version=ver, socc=dc.socc, uuid=bytes.fromhex(rq["uuid"]), rotid_rkh_revocation=0,
                             rotid_rkth_hash=bytes(32), cc_soc_pinned=0, cc_soc_default=0, cc_vu=0,
                             challenge=bytes.fromhex(rq["challenge"]))
-                        dar = DebugAuthenticateResponse.create(
-                            family=c.get("family"), version=None, dc=dc, auth_beacon=rq["beacon"], dac=dac,
-                            dck=os.path.join(K, c["dck_priv"] + ".pem"))
+                        # the path `nxpdebugmbox dat auth` takes: credential from a file, family + revision from the configuration
+                        cert = os.path.join(payload["tmpdir"], "dc_%d.bin" % os.getpid())
+                        with open(cert, "wb") as fh:
+                            fh.write(data)
+                        cfg = {"family": c.get("family") or DebugCredentialCertificate.get_family_ambassador(dc.socc),
+                               "certificate": cert, "beacon": rq["beacon"],
+                               "dck_private_key": os.path.join(K, c["dck_priv"] + ".pem")}
+                        if c.get("revision"):
+                            cfg["revision"] = c["revision"]
+                        dar = DebugAuthenticateResponse.load_from_config(cfg, dac)
                         return [type(dar).__name__, dar.export().hex(), bool(dar.sign_provider.sign_kwargs.get("pss_padding"))]
                     r = guarded(one, seconds=30)
                     out["responses"].append(r[1] if r[0] == "ok" else err(r))
